@@ -119,4 +119,15 @@ example :
      | _ => false) = true := by
   refine ⟨by simp [WFInd, mkSc], rfl, by decide +kernel⟩
 
+open SaphyrModel.Sc in
+/-- **… and so does the end of the stream**: whatever block collections are open when the input ends, `StreamEnd`
+    is preceded by exactly one `BlockEnd` per open level that owed one, and the scanner is back at indentation −1
+    with an empty indent stack. -/
+theorem stream_end_closes_all_blocks (s : Sc) (hw : WFInd s.indent s.indents) (hfl : s.flowLevel = 0) :
+    match fetchStreamEnd s with
+    | .ok (_, s') => s'.indent = -1 ∧ s'.indents = [] ∧
+        ∃ m, s'.tokens = s.tokens ++ blockEnds m s.indents ++ [⟨Span.empty m, .streamEnd⟩]
+    | _ => True :=
+  fetchStreamEnd_unwinds s hw hfl
+
 end SaphyrModel.C15
